@@ -140,6 +140,7 @@ C19 == Fail(CacheSound, "C19.CacheSound")
        \cup Fail(OfflineWhenCached, "C19.OfflineWhenCached")
        \cup Fail(ServedWhenCached, "C19.ServedWhenCached")
        \cup Fail(RetryBound, "C19.RetryBound")
+       \cup Fail(ErrorClassOK, "C19.RetryBound.error_class")
        \cup Fail(NoCrossTalk, "C19.NoCrossTalk")
        \cup Fail(ProbeDone, "C19.LaterLoadSucceeds")
 
